@@ -7,6 +7,7 @@ REPO=${VERIF_REPO:-/repo}
 BASE_REV=${1:-307a8f7}
 W=/var/tmp/sylt-difftest
 mkdir -p $W
+if [ -n "${BASE_BIN:-}" ]; then mkdir -p $W/base; cp "$BASE_BIN" $W/base/sylt; BASE_KEEP=1; fi
 if [ ! -x $W/base/sylt ]; then
   rm -rf $W/basewt; git -C $REPO worktree add --detach $W/basewt $BASE_REV >/dev/null 2>&1 || exit 2
   (cd $W/basewt && CARGO_TARGET_DIR=$W/base-target cargo build --offline -q -p sylt 2>/dev/null) || exit 2
